@@ -74,11 +74,16 @@ type reverseIn struct {
 	Hosts []string `json:"hosts"`
 }
 
-var revAlpha = []string{"a", "b", "foo", "com", ".", ".", ":", "[", "]", "*", "80", "8443", "-", "?", "1", "::1", "{a,b}"}
+var revAlpha = []string{"a", "b", "foo", "com", ".", ".", ":", "[", "]", "*", "*", "80", "8443", "-", "?", "1", "::1", "{a,b}", "!", "$", "(", ")", "é", "ß", "+"}
 
 func genReverse(r *hx.Rand, i int) interface{} {
 	var in reverseIn
 	n := r.Intn(7)
+	if r.Chance(1, 4) {
+		// keys that are suffixes of one another, with and without ports (see genNest)
+		in.Hosts, _ = genNest(r)
+		n = r.Intn(3)
+	}
 	for k := 0; k < n; k++ {
 		if r.Chance(2, 3) {
 			h := r.Pick(rtHosts)
